@@ -168,6 +168,15 @@ func onDo(rnd *rand.Rand, pErr float64) func(b *fakech.Block) error {
 		fail := rnd.Float64() < pErr
 		rmu.Unlock()
 		if fail {
+			rmu.Lock()
+			k := rnd.Intn(3)
+			rmu.Unlock()
+			switch k {
+			case 0:
+				return fmt.Errorf("write tcp 10.0.0.5:43210->10.0.0.9:9000: write: connection reset by peer")
+			case 1:
+				return fmt.Errorf("json parse error: unexpected end of stream (reported by the server)")
+			}
 			return fmt.Errorf("code: 241, scripted INSERT failure")
 		}
 		mu.Lock()
@@ -345,8 +354,16 @@ func main() {
 			go func(i int, p push) {
 				defer wg.Done()
 				defer func() { <-sem }()
-				code, _ := w.Push("POST", p.route, p.ctype, p.body, nil)
-				res[i] = result{p, code}
+				done := make(chan int, 1)
+				go func() { code, _ := w.Push("POST", p.route, p.ctype, p.body, nil); done <- code }()
+				select {
+				case code := <-done:
+					res[i] = result{p, code}
+				case <-time.After(20 * time.Second):
+					add(Finding{Signature: "unanswered|" + strings.Fields(p.class)[0], Property: "C01",
+						Msg: fmt.Sprintf("push %q got no answer within 20 s although the database answered every INSERT", p.class)})
+					res[i] = result{p, -1}
+				}
 			}(i, p)
 			if rnd.Intn(3) == 0 {
 				time.Sleep(time.Duration(rnd.Intn(3)) * time.Millisecond)
